@@ -761,7 +761,7 @@ class Compiler:
             src = _u(v)
             if isinstance(v, ast.Constant) and isinstance(v.value, str):
                 return "npDtypeOfStr %s" % lean_str(v.value)
-            table = {"np.ascontiguousarray(data)": "data.map npAscontiguousarray", "data.dtype": "data.map Arr.dt",
+            table = {"np.ascontiguousarray(data)": "data.map npAscontiguousarray", "data.dtype": "data.map npDtype",
                      "data.shape": "data.map arrShape"}
             if src in table and have_data:
                 return table[src]
@@ -877,8 +877,8 @@ def extract(repo):
     d("`DataSet.__getitem__(self, index)`", "dsGetItem (self : DArr) (index : IndexArg) : Except IoErr (NdArray Elem)", dsget)
     d("`DataSet.append(self, data, axis=0)`", "dsAppend (self : DArr) (data : Arr) (axis : Int) : Run", app)
     d("`Block.create_data_array`: the dtype / shape / data rules (`None` = argument not given)",
-      "createRules (dtype : Option DType) (shape : Option (List Int)) (data : Option Arr) :\n"
-      "    Except IoErr (Option DType × Option (List Int) × Option Arr)", rules)
+      "createRules (dtype : Option DTypeArg) (shape : Option (List Int)) (data : Option Arr) :\n"
+      "    Except IoErr (Option DTypeArg × Option (List Int) × Option Arr)", rules)
     d("`Block.create_data_array`: statements between the rules and the creation, and the creation sequence inside the `try`",
       "createSequence : List String × List String", "(%s, %s)" % (_strs(between), _strs(seq)))
     L.append("end Nix.Gen.DataSet")
